@@ -126,13 +126,29 @@ def arg_map(prog: Dict[str, Any]) -> Dict[Tuple[str, int], int]:
     return {(a[0], a[1]): a[2] for a in prog["arg"]}
 
 
+def pexpr(shape: Shape, p: str) -> str:
+    """source of a store path: the literal, or (realisation `path_vars`) the name of a module-level
+    variable holding it (a str or a pathlib.Path, both documented)"""
+    if shape.real.get("path_vars"):
+        return "P_%d" % shape.all_paths().index(p)
+    return repr(p)
+
+
+def path_var_defs(shape: Shape, used: List[str]) -> List[str]:
+    res = []
+    for p in sorted(set(used)):
+        k = shape.all_paths().index(p)
+        res.append("P_%d = %s" % (k, repr(p) if k % 2 == 0 else "pathlib.Path(%r)" % p))
+    return res
+
+
 def _stmt_lines(shape: Shape, f: str, i: int, s: Dict[str, str], args: Dict[Tuple[str, int], int],
                 names: Dict[str, str], inline_prev: Optional[str] = None) -> List[str]:
     """inline_prev: source of the previous statement's call, to be evaluated INSIDE the argument
     expression of this (run-time argument) keep"""
     k = s["k"]
     if k == "load":
-        return ["    sv.append(dds.load(%r))" % s["p"]]
+        return ["    sv.append(dds.load(%s))" % pexpr(shape, s["p"])]
     # the callee of a keep must be a plain name (documented restriction, UNSUPPORTED_CALLABLE_TYPE)
     g = names[s["g"]] if k not in ("keep", "ref") else names.get(k + ":" + s["g"], names[s["g"]])
     if k == "call":
@@ -152,23 +168,23 @@ def _stmt_lines(shape: Shape, f: str, i: int, s: Dict[str, str], args: Dict[Tupl
     a = s["a"]
     ver = args.get((f, i + 1), 0)
     if a == "none" or a == "default":
-        return ["    sv.append(dds.keep(%r, %s))" % (s["p"], g)]
+        return ["    sv.append(dds.keep(%s, %s))" % (pexpr(shape, s["p"]), g)]
     if a == "pass":
-        return ["    sv.append(dds.keep(%r, %s, x))" % (s["p"], g)]
+        return ["    sv.append(dds.keep(%s, %s, x))" % (pexpr(shape, s["p"]), g)]
     lit = ARG_SRC[ver]
     if a == "const":
-        return ["    sv.append(dds.keep(%r, %s, %s))" % (s["p"], g, lit)]
+        return ["    sv.append(dds.keep(%s, %s, %s))" % (pexpr(shape, s["p"]), g, lit)]
     if a == "kw":
-        return ["    sv.append(dds.keep(%r, %s, x=%s))" % (s["p"], g, lit)]
+        return ["    sv.append(dds.keep(%s, %s, x=%s))" % (pexpr(shape, s["p"]), g, lit)]
     assert a == "runtime", s
     svx = "sv" if inline_prev is None else "L.push(sv, %s)" % inline_prev
     if s["lay"] == "1":
-        return ["    sv.append(dds.keep(%r, %s, L.rt(%s, %s)))" % (s["p"], g, lit, svx)]
+        return ["    sv.append(dds.keep(%s, %s, L.rt(%s, %s)))" % (pexpr(shape, s["p"]), g, lit, svx)]
     if s["lay"] == "2":
-        return ["    sv.append(dds.keep(%r, %s," % (s["p"], g),
+        return ["    sv.append(dds.keep(%s, %s," % (pexpr(shape, s["p"]), g),
                 "                       L.rt(%s, %s)))" % (lit, svx)]
     # three-line layout: the literal sits on the third line of the call
-    return ["    sv.append(dds.keep(%r, %s," % (s["p"], g),
+    return ["    sv.append(dds.keep(%s, %s," % (pexpr(shape, s["p"]), g),
             "                       L.rt(",
             "                           %s, %s)))" % (lit, svx)]
 
@@ -178,7 +194,7 @@ def _fun_src(shape: Shape, f: str, prog: Dict[str, Any], names: Dict[str, str],
     args = arg_map(prog)
     lines = []
     if shape.dpath[f]:
-        lines.append("@dds.data_function(%r)" % shape.dpath[f])
+        lines.append("@dds.data_function(%s)" % pexpr(shape, shape.dpath[f]))
     par = shape.param[f]
     sig = {"none": "", "x": "x", "xdef": "x=%d" % (7 + prog.get("defv", {}).get(f, 0))}[par]
     ind = ""
@@ -340,6 +356,10 @@ def files_of(shape: Shape, prog: Dict[str, Any]) -> Dict[str, str]:
             else:
                 raise ValueError(import_form)
         lines += _filler(unrel, "top")
+        if shape.real.get("path_vars"):
+            used = [s_["p"] for f_ in funs for s_ in shape.stmts[f_] if s_["k"] in ("keep", "load")] + \
+                   [shape.dpath[f_] for f_ in funs if shape.dpath[f_]]
+            lines += path_var_defs(shape, used)
         # variables read by the functions of this module (one line each: stable line count)
         vs = sorted(set(v for f in funs for v in shape.reads[f]))
         if any(shape.vtype[v] == "dataclass_local" for v in vs):
